@@ -5,6 +5,8 @@ C07.bits    stored / returned word of each accessor for each of the 68 views, as
 C07.guard   range guard precedes the single insert; out-of-range value is a by-design rejection without any store
 C07.reject  a register of the wrong width is a by-design rejection (not a crash), without any store
 """
+LEVEL = "proof"
+
 from .. import absint as A
 from .. import facts as F
 from .. import hutil as U
@@ -304,6 +306,7 @@ def accessors(ctx, tabs):
             else:
                 ck.ok("C07.reject", inst, len(others))
     ck.floor("accessor x view instances", nviews, 138)
+    ck.cov["exhaustive"] = True  # every register variant x every accessor; all values via bit provenance
 
 
 def describe_bits(bv, exp):
